@@ -7,6 +7,14 @@ ids = [p["id"] for p in props]
 
 # id -> (technique, level text, level note, design ref)
 claimed = {
+ "C19": ("exhaustive enumeration of normal-form histories x TreeOptions/SqliteDbOptions combinations executed on the real v2 code (SQLite in shared-cache memory mode), differential oracle against v1 MutableTree, the independent reference tree and the sorted-map model",
+         "Every history of 3 versions whose per-version write set is a sorted set of <= 2 writes/removals over {a,b,c} (6859 histories; thorough adds 5 versions x 1 operation over 5 keys) under the default configuration and every single-dimension deviation (thorough: the full product of checkpoint interval {1,2,3,1000} x height filter {0,1} x eviction depth {-1,0,1,8} x sharding): every SaveVersion hash equals v1 and the reference; Get, Has, Size, Height and all forward / inclusive / reverse iterators over a bound set equal the model after every commit.",
+         "Runs in one single-threaded worker process per core. Remove's returned previous value is not part of the statement and not compared.",
+         "DESIGN.md §4 C19"),
+ "C20": ("exhaustive enumeration of normal-form histories x configurations on the real v2 code with on-disk databases; after building a history every persistence scenario starts from a copy of the closed database directory",
+         "For every enumerated history (2 keys, 3 versions; thorough 4) and configuration: close + reopen + LoadVersion(t) for every t gives the hash and contents of t; continuing the history for two more versions gives the hashes of the uninterrupted run; DeleteVersionsTo(p) for every p (pruning loops driven to idle through an overlay-injected hook) keeps the latest version and every version at or above the last checkpoint <= p loadable with the right hash and contents; SaveSnapshot/LoadSnapshot and export -> WriteSnapshot -> ImportSnapshotFromTable -> LoadVersion in pre- and post-order reproduce the version.",
+         "The interleavings of v2's background writer loops are not explored (the property does not quantify over schedules). Hook: /verif/check/hooks/zz_verif_v2.go.in + sed-inserted calls, attached by overlay.",
+         "DESIGN.md §4 C20"),
  "C06": ("stateless schedule exploration of the real code under a controlled scheduler (iterative preemption bounding, CHESS style), with the Go race detector active inside every enumerated schedule",
          "For harnesses of one writer (Set/Remove/SaveVersion/DeleteVersionsTo) and 1-2 readers of committed versions (Get, GetWithIndex, Has, Iterator, GetProof, GetImmutable of the latest version), node cache 0/100, fast index on/off: every schedule with at most 2 (quick) / 3 (thorough) preemptions (one less for the 3-thread harness and for the -race build) over the scheduling points {every Lock/RLock of iavl's mutexes, every storage call} is executed on the real code; every reader result must equal the contents of its version as of its commit, and the race detector must stay silent in every schedule.",
          "The iavl sources are rebuilt with \"sync\" replaced by a shim (check/vrtsrc) that reports lock operations to the scheduler; the hand-off uses raw futex calls from //go:norace code so that the scheduler adds no happens-before edge. Not covered: export pinning and background pruning (goroutines/channels are not rewritten), > 3 threads.",
